@@ -45,7 +45,7 @@ func runC15(c *Ctx) {
 	c.floor("DX.CURSOR", 2)
 	s := c.decoderScope("dec")
 	s.ruleDAHint("DA.HINT")
-	c.floor("DA.HINT", 4)
+	c.floor("DA.HINT", 2)
 	s.ruleDRWidth("DR.WIDTH")
 	c.floor("DR.WIDTH", 0)
 	s.ruleDR("DR")
